@@ -19,7 +19,7 @@ def run(ctx):
     for t, (b, err) in zip(ts, bins):
         if not b:
             raise vf.Undecided('c02_u for %s does not compile: %s' % (t['name'], err[:2500]))
-        nparts = 16 if (thorough and t['name'] in ('MemoryRate', 'Memory', 'Acceleration', 'Speed')) else (4 if thorough else 1)
+        nparts = 16 if (t['name'] in ('MemoryRate', 'Memory', 'Acceleration', 'Speed')) else (4 if thorough else 2)
         runs += [(b, [p, nparts]) for p in range(nparts)]
     ctx.pmap(lambda r: ctx.run(r[0], r[1]), runs)
     rule = ('every dimensional quantity type (found by probing Unit()) x every unit of its unit type (reflection) x 3 numeric types: '
@@ -27,7 +27,7 @@ def run(ctx):
             'Print/JSON/XML/YAML(u2) for u2 in {u, next(u), standard}%s compared slot by slot with the scalar PhQ::Convert of each '
             'component (<= 1 ulp); construct-in-u/read-in-u round trip (<= 16 ulp of the affine scale). Free functions per unit type: '
             'Convert / ConvertInPlace on scalar, array<1,2,3,6,9,17>, vector<0,1,5,64,1000,1024,4096>, PlanarVector, Vector, SymmetricDyad, Dyad for '
-            'unit pairs {(u,u), (u,next u), (u,std), (std,u)}%s and ConvertStatically on all container forms for (u,std), (std,u), '
+            'ALL ordered unit pairs for the small forms (scalar, array<1..9>, vector<0,1,5>, the four vector/tensor classes) and unit pairs {(u,u), (u,next u), (u,std), (std,u)}%s for the large containers, and ConvertStatically on all container forms for (u,std), (std,u), '
             '(u,u): each slot equals the scalar conversion of that slot, copying forms leave the argument unchanged, in-place == copying, '
             'unit to itself is the identity. Slot values are pairwise distinct (+-p_i/8+2^-20). distinct_nontrivial = comparisons '
             'between two different units') % ((' and all other units' if thorough else ''), (' plus all ordered pairs' if thorough else ''))
